@@ -13,6 +13,7 @@ CONSTANTS
   MaxPropObjsW = 0
   MaxCalls = 2
   MaxSessions = 2
+  MaxRefused = 0
   GenPrint = FALSE
 INVARIANT RoundTrip
 INVARIANT ParentsFirst
